@@ -254,6 +254,8 @@ pub enum Strict {
 }
 #[derive(Clone, Copy, Debug, PartialEq, Eq, Hash, Serialize, Deserialize)]
 pub enum GuardK {
+    /// an optional value that must be present (absence is reported by the guard)
+    Present,
     /// numeric value must be < 10
     Lt10,
     /// string value must not be "bad"
@@ -492,6 +494,7 @@ fn optv(o: Option<Val>) -> Val {
 
 fn guard_fn(k: GuardK) -> (fn(&Val) -> bool, &'static str) {
     match k {
+        GuardK::Present => (|v| !matches!(v, Val::No), "must be given"),
         GuardK::Lt10 => (|v| !matches!(v, Val::N(n) if *n >= 10), GUARD_MSG_LT10),
         GuardK::NotBad => (|v| !matches!(v, Val::S(t) if t.0 == b"bad"), GUARD_MSG_NOTBAD),
         GuardK::Len2 => (|v| !matches!(v, Val::L(l) if l.len() > 2), GUARD_MSG_LEN2),
